@@ -268,6 +268,9 @@ pub fn random_logical(rng: &mut Rng) -> Logical {
             "application/x-www-form-urlencoded;charset=UTF-8",
             " application/x-www-form-urlencoded ; Charset=utf8",
             "application/x-www-form-urlencoded; boundary=x; charset=unicode-1-1-utf-8",
+            // of several charset options the first one counts
+            "application/x-www-form-urlencoded; charset=utf-8; charset=bogus",
+            "application/x-www-form-urlencoded;charset=UTF8;charset=utf-16le; charset=",
         ]);
         // names shared between URL and form body (the folding merge must keep both), exact duplicates too
         if !f.is_empty() && rng.chance(1, 2) {
